@@ -160,7 +160,7 @@ def run(ctx):
                         "inst!/ext_inst! macro expansion validated by comparing with iter() on every run",
                         "extended-instruction lookups probed on 0..4095 and on every number below 256 combined with every single higher bit and five high halves (6406 far values), not on all 2^32 numbers (the theorem covers all)"]
     return C.finish(ctx, level="proof", checker_cmd="lake build Rspirv.Props.C09 + #print axioms",
-                    rule="lookup_opcode on every 16-bit number (core) and 0..4095 (GLSL, OpenCL), get() on every opcode; distinct non-trivial = numbers with an entry",
+                    rule="lookup_opcode on every 16-bit number (core) and 0..4095 (GLSL, OpenCL), get() on every opcode; every number asked twice in a row, in descending order, after a hit and after a miss (answers must equal the first sweep); distinct non-trivial = numbers with an entry",
                     trusted=["translator grammar_tables.py", "extractor"])
 
 
